@@ -63,12 +63,22 @@ def pure_memo(r: R, chk):
                         loads_ok = False
             # the key parameter is never rebound
             rebound = any(isinstance(x, ast.Name) and x.id == k and isinstance(x.ctx, ast.Store) for x in ast.walk(fi.node))
+            ctxq = r.root(q)
+            from .c08 import path_facts
+
+            def stmt_node_of(sub):
+                for nd in r.stmt_nodes(ctxq):
+                    if nd.ast is not None and any(x is sub for x in ast.walk(nd.ast)):
+                        return nd
+                return None
+
             for n, key_ok in stores:
-                par = [s for s in ast.walk(fi.node) if isinstance(s, ast.If) and any(y is n for b in s.body for y in ast.walk(b))]
-                guarded = any(isinstance(p.test, ast.Compare) and isinstance(p.test.ops[0], ast.NotIn) and isinstance(p.test.left, ast.Name) and p.test.left.id == k and isinstance(p.test.comparators[0], ast.Attribute) and mangle(fi.clsname, p.test.comparators[0].attr) == mname for p in par)
+                nd = stmt_node_of(n)
+                tab = seg(n.value)
+                guarded = nd is not None and (f"{k} in {tab}", False) in path_facts(ctxq, nd.id)
                 ok = key_ok and guarded and not rebound
-                chk.ob("PURE-MEMO", f"{q}: `{seg(n, 40)}` writes only at its own key under `if {k} not in table`", ok, loc=f"heavy.py:{n.lineno}",
-                       detail="" if ok else f"{q}: the table write `{seg(n, 50)}` is not `T[{k}] = …` under `if {k} not in T` (key rebound: {rebound}): entries can be overwritten or written for another size, so A(k) is no longer a function of k alone", func=q, construct=f"memo write {seg(n, 40)}")
+                chk.ob("PURE-MEMO", f"{q}: `{seg(n, 40)}` writes only at its own key where `{k} not in table` holds", ok, loc=f"heavy.py:{n.lineno}",
+                       detail="" if ok else f"{q}: the table write `{seg(n, 50)}` is not `T[{k}] = …` on a path that established `{k} not in T` (key rebound: {rebound}): entries can be overwritten or written for another size, so A(k) is no longer a function of k alone", func=q, construct=f"memo write {seg(n, 40)}")
             chk.ob("PURE-MEMO", f"{q}: every read of the table is at the accessor's own key", loads_ok and not rebound, loc=f"heavy.py:{fi.node.lineno}", detail="" if loads_ok and not rebound else f"{q}: reads the table at a key other than its parameter", func=q, construct="memo read at foreign key")
             # stored value depends on k alone (and on pure-memo callees)
             ctx = r.root(q)
@@ -79,6 +89,14 @@ def pure_memo(r: R, chk):
                 chk.ob("PURE-MEMO", f"{q}: the returned rule depends on `{k}` only", okd, loc=r.loc(ctx, ctx.cfg.nodes[nid].ast), detail="" if okd else f"{q}: the result depends on {r.fmt_deps(fi, foreign)} besides `{k}`", func=q, construct="memo value depends on more than its key")
                 rv = ctx.cfg.nodes[nid].ast.value
                 ret_is_entry = isinstance(rv, ast.Subscript) and isinstance(rv.value, ast.Attribute) and mangle(fi.clsname, rv.value.attr) == mname and isinstance(rv.slice, ast.Name) and rv.slice.id == k
+                if not ret_is_entry and isinstance(rv, ast.Name):
+                    # `T[k] = v; return v`: the returned local is what was just stored at the accessor's own key
+                    for sn, key_ok2 in stores:
+                        snd = stmt_node_of(sn)
+                        if key_ok2 and snd is not None and isinstance(snd.ast, ast.Assign) and isinstance(snd.ast.value, ast.Name) and snd.ast.value.id == rv.id and ctx.cfg.dominates(snd.id, nid):
+                            between = [x for x in ast.walk(fi.node) if isinstance(x, ast.Name) and x.id == rv.id and isinstance(x.ctx, ast.Store) and getattr(x, "lineno", 0) > snd.ast.lineno]
+                            if not between:
+                                ret_is_entry = True
                 chk.ob("PURE-MEMO", f"{q}: returns `T[{k}]`", ret_is_entry, loc=r.loc(ctx, ctx.cfg.nodes[nid].ast), detail="" if ret_is_entry else f"{q}: does not return the table entry of its own key: `{seg(rv, 40)}`", func=q, construct="accessor does not return its entry")
                 imm = v.ty and v.ty <= {"tuple"}
                 chk.ob("PURE-MEMO", f"{q}: stored values are immutable tuples", bool(imm), loc=r.loc(ctx, ctx.cfg.nodes[nid].ast), detail="" if imm else f"{q}: the memoised value may be {sorted(v.ty)} — a caller could change a cached rule in place", func=q, construct="mutable memo value")
@@ -203,7 +221,8 @@ def default_open(r: R, chk, consumers: List[str]):
 
     for q in CLOSED_NODES:
         fi = r.prog.func(q)
-        if not any(isinstance(b, ast.BinOp) and isinstance(b.op, ast.Div) and seg(b.right).replace(" ", "") in ("(npts-1)", "npts-1") for b in ast.walk(fi.node)):
+        alias = {a.targets[0].id for a in ast.walk(fi.node) if isinstance(a, ast.Assign) and len(a.targets) == 1 and isinstance(a.targets[0], ast.Name) and seg(a.value).replace(" ", "") in ("(npts-1)", "npts-1")}
+        if not any(isinstance(b, ast.BinOp) and isinstance(b.op, ast.Div) and (seg(b.right).replace(" ", "") in ("(npts-1)", "npts-1") or (isinstance(b.right, ast.Name) and b.right.id in alias)) for b in ast.walk(fi.node)):
             raise AnalysisError(f"{q} no longer divides by npts - 1: the closed-node table of the checker is stale")
     n = 0
     nreq = 0
